@@ -51,7 +51,7 @@ Value& RAWExpression::value(Context & ctx) const
       if (val.lvalue())
         return ctx.allocate(Value(tmp));
       val.swap(Value(tmp));
-      return val;
+      return handback(ctx, val);
     }
     case Type::INTEGER:
       n = *val.integer();
@@ -60,7 +60,7 @@ Value& RAWExpression::value(Context & ctx) const
       n = Integer(*val.numeric());
       break;
     case Type::TABCHAR:
-      return val;
+      return handback(ctx, val);
     default:
       throw RuntimeError(EXC_RT_FUNC_ARG_TYPE_S, KEYWORDS[FUNC_RAW]);
     }
@@ -93,12 +93,12 @@ Value& RAWExpression::value(Context & ctx) const
     if (val.lvalue())
       return ctx.allocate(Value(new TabChar(n, (char)v)));
     val.swap(Value(new TabChar(n, (char)v)));
-    return val;
+    return handback(ctx, val);
   }
   if (val.lvalue())
     return ctx.allocate(Value(Value::type_tabchar));
   val.swap(Value(Value::type_tabchar));
-  return val;
+  return handback(ctx, val);
 }
 
 RAWExpression * RAWExpression::parse(Parser& p, Context& ctx)
